@@ -51,6 +51,9 @@ func constFoldIf(iff *ssa.If) (bool, bool) {
 
 // deadEdge: pred→succ can never be taken (pred ends in an If that folds to the other edge).
 func deadEdge(pred, succ *ssa.BasicBlock) bool {
+	if semDead(pred, succ) {
+		return true
+	}
 	iff, ok := pred.Instrs[len(pred.Instrs)-1].(*ssa.If)
 	if !ok || pred.Succs[0] == pred.Succs[1] {
 		return false
